@@ -3,6 +3,8 @@
 extern "C" {
 #include "cat.h"
 }
+#include <cstddef>
+extern "C" size_t peek_mutable_offset(void) { return offsetof(struct cat_object, index); }
 extern "C" int peek_state(const void *o, int out[4])
 {
         const struct cat_object *obj = (const struct cat_object *)o;
